@@ -56,5 +56,6 @@ extern const fc_desc fc_misc[]; extern const unsigned fc_misc_n;
 extern const fc_desc fc_bign[]; extern const unsigned fc_bign_n;
 extern const fc_desc fc_proto[]; extern const unsigned fc_proto_n;
 extern const fc_desc fc_math[]; extern const unsigned fc_math_n;
+extern const fc_desc fc_other[]; extern const unsigned fc_other_n;
 
 #endif
